@@ -236,6 +236,35 @@ def _is_objmask(k):
         builtins.all(isinstance(e, (SymBool, bool, _np.bool_)) for e in k.view(_nd).flat)
 
 
+def _is_objindex(k):
+    # an object array of integers some of which are symbolic (np.where(sym_cond, i, j), np.clip of it): an index array
+    if not (isinstance(k, _nd) and k.dtype == object and k.size > 0):
+        return False
+    flat = list(k.view(_nd).flat)
+    if not builtins.all(isinstance(e, (int, _np.integer, float, _np.floating, SymReal)) and not isinstance(e, (bool, _np.bool_)) for e in flat):
+        return False
+    return builtins.any(isinstance(e, SymReal) for e in flat)
+
+
+def concretize_index(k, n):
+    """object array of (symbolic) integer positions into an axis of length n -> intp ndarray, forking on the symbolic entries"""
+    kk = k.view(_nd)
+    out = _np.zeros(kk.shape, dtype=_np.intp)
+    for idx in _np.ndindex(*kk.shape):
+        e = kk[idx]
+        if isinstance(e, SymReal):
+            for v in range(-n, n):
+                if bool(e == v):
+                    out[idx] = v; break
+            else:
+                raise IndexError("symbolic index outside [-%d, %d)" % (n, n))
+        else:
+            if float(e) != int(e):
+                raise IndexError("arrays used as indices must be of integer (or boolean) type")
+            out[idx] = int(e)
+    return out
+
+
 def concretize_mask(m):
     """object array of SymBool/bool -> bool ndarray, forking on the symbolic entries"""
     m = m.view(_nd)
@@ -311,6 +340,8 @@ class SymArray(_nd):
             return _nd.__getitem__(self, key)
         if _is_objmask(key):
             key = concretize_mask(key)
+        elif _is_objindex(key):
+            key = concretize_index(key, self.shape[0])
         r = _nd.__getitem__(self, key)
         return r
 
